@@ -626,23 +626,35 @@ class ResultTypesGenerator:
         return fragments_names
 
     def _sort_fragments_bases(self, fragments: Set[str]) -> List[str]:
-        """Sort alphabetically, but fragment spreading another one goes first (MRO)."""
-        sorted_names: List[str] = []
-        remaining = sorted(fragments)
-        while remaining:
-            spread_by_others: Set[str] = set()
-            for name in remaining:
-                spread_by_others = spread_by_others.union(
-                    self._get_fragments_names(
-                        self.fragments_definitions[name].selection_set
-                    )
-                )
-            name = next(
-                (n for n in remaining if n not in spread_by_others), remaining[0]
-            )
-            sorted_names.append(name)
-            remaining.remove(name)
-        return sorted_names
+        """Class lists all fragments it inherits from, also indirectly, subclasses first.
+
+        With every class listing all its ancestors in one global order (most derived
+        first, then alphabetically) method resolution order is always consistent."""
+        all_bases = set(fragments)
+        for name in fragments:
+            all_bases = all_bases.union(self._get_fragment_bases(name))
+        return sorted(all_bases, key=lambda n: (-self._get_fragment_depth(n), n))
+
+    def _get_direct_fragment_bases(self, fragment_name: str) -> Set[str]:
+        fragment_def = self.fragments_definitions[fragment_name]
+        _, bases = self._resolve_selection_set(
+            fragment_def.selection_set, fragment_def.type_condition.name.value
+        )
+        return bases
+
+    def _get_fragment_bases(self, fragment_name: str) -> Set[str]:
+        """Fragments which class of given fragment inherits from, directly or not."""
+        bases = self._get_direct_fragment_bases(fragment_name)
+        all_bases = set(bases)
+        for base in bases:
+            all_bases = all_bases.union(self._get_fragment_bases(base))
+        return all_bases
+
+    def _get_fragment_depth(self, fragment_name: str) -> int:
+        bases = self._get_direct_fragment_bases(fragment_name)
+        if not bases:
+            return 0
+        return 1 + max(self._get_fragment_depth(base) for base in bases)
 
     def _get_fragments_names(self, selection_set: SelectionSetNode) -> Set[str]:
         names: Set[str] = set()
